@@ -15,7 +15,7 @@ const SPELL: u32 = Cat::ArgSpell as u32 | Cat::Quote as u32;
 
 /// 0: alone, 1: `-true -a <P> -o -false`, 2: `( <P> )`, 3: `! <P>`; members only: 4: `(<P>)`
 /// (parentheses without inner blanks: the last argument word ends where the `)` starts),
-/// 5: `<P> , -false`
+/// 5: `<P> , -false`, 6: `-name x -depth -threads 3 <P>` (the primary after misplaced option words)
 fn wrap_text(p: &str, wrap: u8) -> String {
     match wrap {
         0 => p.to_string(),
@@ -23,7 +23,8 @@ fn wrap_text(p: &str, wrap: u8) -> String {
         2 => format!("( {p} )"),
         3 => format!("! {p}"),
         4 => format!("({p})"),
-        _ => format!("{p} , -false"),
+        5 => format!("{p} , -false"),
+        _ => format!("-name x -depth -threads 3 {p}"),
     }
 }
 fn wrap_tree(e: E, wrap: u8) -> E {
@@ -31,7 +32,9 @@ fn wrap_tree(e: E, wrap: u8) -> E {
         0 | 2 | 4 => e,
         1 => E::or(E::and(E::T(Tst::True), e), E::T(Tst::False)),
         3 => E::not(e),
-        _ => E::list(e, E::T(Tst::False)),
+        5 => E::list(e, E::T(Tst::False)),
+        // after option words inside the expression (each of them is -true there)
+        _ => E::and(E::and(E::and(E::T(Tst::Name("x".into())), E::T(Tst::True)), E::T(Tst::True)), e),
     }
 }
 
@@ -70,6 +73,7 @@ pub fn judge_member(leaf: &E, choices: &[u16], wrap: u8) -> Verdict {
         E::G(_) => return Verdict::Skip("-maxdepth/-mindepth are decided by C13"),
         other => (false, None, wrap_tree(other.clone(), wrap)),
     };
+    let (exp_depth, exp_threads) = if wrap == 6 { (true, exp_threads.or(Some(3))) } else { (exp_depth, exp_threads) };
     match parse_tree(&text) {
         Err(p) => Verdict::Fail(format!("parse panicked on member {text:?}: {p}")),
         Ok(Err(e)) => Verdict::Fail(format!("{text:?} is '{kw}' with an argument of its language (expected {exp_tree:?}) but was rejected: {e}")),
@@ -445,7 +449,7 @@ pub fn run(ctx: &Ctx) -> Report {
         if let Some(w) = render::primary_words(leaf, &mut render::Canon) {
             kws.insert(w[0].text.clone());
         }
-        for wrap in 0..6u8 {
+        for wrap in 0..7u8 {
             for choices in [vec![], vec![40000u16], vec![0, 40000], vec![25000, 25000, 25000], vec![60000, 60000, 60000, 60000]] {
                 let v = judge_member(leaf, &choices, wrap);
                 st.record(&v, stable_hash(&(leaf, &choices, wrap)), true, || member_json(leaf, &choices, wrap));
@@ -571,7 +575,7 @@ pub fn run(ctx: &Ctx) -> Report {
         let mut st = Stats::new();
         poison_parses(40);
         let leaf = prop_oneof![20 => gen::text_leaf(), 1 => Just(E::G(Glob::Depth)), 1 => gen::count_u32().prop_map(|n| E::G(Glob::Threads(n)))];
-        let strat = (leaf.clone(), gen::choice_stream(8), 0u8..6);
+        let strat = (leaf.clone(), gen::choice_stream(8), 0u8..7);
         run_prop(&mut st, ctx.seed, "C05-member", shard as u64, cases / shards as u32, &strat, |(l, c, w)| judge_member(l, c, *w), |(l, c, w)| member_json(l, c, *w));
         let strat = (leaf, 0usize..1000, 0u8..4, 0usize..8).prop_filter_map("no corruption applies", |(l, k, w, pickc)| {
             let cs = corruptions(&l, k, w);
@@ -602,7 +606,7 @@ pub fn run(ctx: &Ctx) -> Report {
 
     Report {
         stats: total,
-        rule: "members: every keyword of the vocabulary (63 words incl. operators/options) with generated arguments of its documented language (signed counts, sizes/times with every unit and the default, type lists, octal modes in 3/4/6 digits, single-clause symbolic modes, bare/quoted words, format strings), alone, as '-true -a P -o -false', '( P )', '! P', '(P)' and 'P , -false' -> parse must be Ok and the tree must equal the node built on the specification side. Non-members: per language a table of junk words, keyword+suffix, missing argument at end of input, junk after a quoted string, a bad format directive, two primaries glued without a blank, unknown words with no keyword prefix -> must be Err (any Ok is a failure: nothing may be partly used). Non-trivial: keyword of a shadowing family, or argument with sign/unit/quote/list/non-canonical spelling, or a non-member with a valid proper prefix. Distinct: by (leaf, spelling choices, embedding) resp. by input text.".into(),
+        rule: "members: every keyword of the vocabulary (63 words incl. operators/options) with generated arguments of its documented language (signed counts, sizes/times with every unit and the default, type lists, octal modes in 3/4/6 digits, single-clause symbolic modes, bare/quoted words, format strings), alone, as '-true -a P -o -false', '( P )', '! P', '(P)', 'P , -false' and '-name x -depth -threads 3 P' -> parse must be Ok and the tree must equal the node built on the specification side. Non-members: per language a table of junk words, keyword+suffix, missing argument at end of input, junk after a quoted string, a bad format directive, two primaries glued without a blank, unknown words with no keyword prefix -> must be Err (any Ok is a failure: nothing may be partly used). Non-trivial: keyword of a shadowing family, or argument with sign/unit/quote/list/non-canonical spelling, or a non-member with a valid proper prefix. Distinct: by (leaf, spelling choices, embedding) resp. by input text.".into(),
         assumptions: vec![
             "glued punctuation ('(-true)', '!-true', '-true,-false') is not asserted either way (the repository's own tests rely on self-delimiting parentheses)".into(),
             "-maxdepth/-mindepth are decided by C13; multi-clause symbolic modes by C08; numeric range by C07".into(),
